@@ -16,7 +16,7 @@ TECHNIQUE = ('differential + metamorphic runtime monitors on generated acyclic r
 RULE = ('cases = acyclic rule sets over <= 8 names (acyclic including the undefined->default edge): random expression '
         'bodies mixing role checks, recording checks and rule: references; dedicated shapes: alias chains to depth 8, '
         'diamonds, references under not/and/or, undefined references; with and without a default rule (option default name, constructor name, '
-        'constructor check object); every rule enforced under all 16 subsets of 4 roles; stratum `redefinition`: some rules are redefined under the living enforcer (merge, store update, item assignment, overwrite) and everything is re-decided against the new definitions. Stratum `overlap`: two requests enforce two policies of one rule set at the same time (second one runs at sampled line boundaries of the first, deterministic scheduler); decisions and the policy name told to nested checks must be those of each request alone. Stratum `checker-tool`: the same rule sets written to a file and decided by the console checker (its own stand-in enforcer), incl. an unknown policy name. Non-trivial = the '
+        'constructor check object); every rule enforced under all 16 subsets of 4 roles; stratum `redefinition`: some rules are redefined under the living enforcer (merge, store update, item assignment, overwrite) and everything is re-decided against the new definitions. Stratum `overlap`: two requests enforce two policies of one rule set at the same time (second one runs at sampled line boundaries of the first, deterministic scheduler); decisions and the policy name told to nested checks must be those of each request alone; besides the pre-empt/run/finish schedule, both requests are held in flight at once (first one pre-empted, second one pre-empted before it ends, first one finishes, second one finishes) over a grid of boundary pairs; part of the overlap cases are rule sets in which one name (defined, an alias or undefined) is referenced at least twice under one and/or (diamonds, `rule:x and (... or rule:x)`, flat repeats; both requests on the same policy or on two policies) with role sets that make that name decide differently for the two requests. Stratum `late-default`: the rule set of a living enforcer lacks the default rule whose name is configured (option or constructor); after a first round of decisions the default rule is defined later (merge without overwrite, store update, item assignment, a default registered in code for a file-backed enforcer before or after its first load, a file dropped into a policy directory, the policy file rewritten) and every rule incl. undefined references (plain, under not, nested) and an unknown policy name is re-decided against the reference with the default rule now usable. Stratum `checker-tool`: the same rule sets written to a file and decided by the console checker (its own stand-in enforcer), incl. an unknown policy name. Non-trivial = the '
         'rule set contains at least one rule: reference reached from the enforced rule; distinct = distinct rule set.')
 ASSUMPTIONS = ['role:/@/! leaves evaluate as C01/C04 state', 'the harness registers two private check kinds and removes them afterwards']
 LEVEL_TEXT = ('Seeded sampling of acyclic reference graphs with targeted shapes (chains, diamonds, undefined references), '
@@ -26,12 +26,17 @@ LEVEL_NOTE = 'trusted: the reference evaluator with expansion; generated graphs 
 PLAN = {'quick': dict(shards=4, wall=60), 'thorough': dict(shards=16, wall=400)}
 MIN = {'overlapping_evaluations': 200, 'evaluations': 300, 'reference_decisions': 5000, 'inlined_comparisons': 200, 'current_rule_observations': 500,
        'undefined_reference_decisions': 100, 'three_arg_calls': 100, 'redefinition_decisions': 2000, 'unknown_name_direct_decisions': 1000, 'checker_tool_decisions': 500,
-       'checker_tool_undefined_reference_decisions': 50}
+       'checker_tool_undefined_reference_decisions': 50,
+       'overlap_repeated_reference_cases': 12, 'overlap_pairs_where_the_repeated_reference_decides_differently': 8, 'interleaved_evaluations': 400,
+       'late_default_decisions': 5000, 'late_default_undefined_reference_decisions': 1000, 'late_default_file_backed_cases': 20}
 ANCHORS = ['oslo_policy._checks:RuleCheck.__call__', 'oslo_policy._checks:_check', 'oslo_policy.policy:Rules.__missing__',
            'oslo_policy.policy:Enforcer.enforce']
 REQUIRED_ANCHORS = ['oslo_policy.policy:Enforcer.enforce']
 N = {'quick': 2000, 'thorough': 200000}
 OVERLAPS = {'quick': 10, 'thorough': 200}
+OVERLAPS_REPEATED = {'quick': 10, 'thorough': 32}       # per shard; aimed overlap cases (repeated reference)
+OVERLAP_GRID = {'quick': [3, 4], 'thorough': [2, 3]}      # both-in-flight schedules per random overlap case
+LATE_EVERY = {'quick': 6, 'thorough': 64}                 # every n-th rule set also goes through stratum late-default
 
 ROLES = ['a', 'b', 'c', 'd']
 SUBSETS = [[r for i, r in enumerate(ROLES) if m >> i & 1] for m in range(16)]
@@ -275,6 +280,48 @@ def check_case(ctx, case):
                 break
 
 
+def spread(n, g, rnd):
+    """g boundaries out of 1..n, one drawn from each of g equal slices (all of them when n <= g)."""
+    if n <= g:
+        return list(range(1, n + 1))
+    out = []
+    for i in range(g):
+        lo = 1 + n * i // g
+        out.append(rnd.randint(lo, max(lo, n * (i + 1) // g)))
+    return sorted(set(out))
+
+
+def interleave(ctx, enf, call_a, call_b, case, detail, rnd, grid):
+    """Both requests in flight at once: A is pre-empted at boundary k, B starts and is itself pre-empted at its boundary j
+    (so B has not finished and whatever it parked on the enforcer is still there), A runs to its end, then B does.  k and j
+    run over a grid spread over the whole of both calls.  The pair of results must be that of A; B one after the other."""
+    import copy
+    from pv.mon import overlap, sched
+
+    def mk(call):
+        rule, target, creds, kw = call
+        t, c = copy.deepcopy(target), copy.deepcopy(creds)
+        return lambda: overlap.outcome(lambda: enf.enforce(rule, t, c, **kw))
+    r = sched.Run({'A': mk(call_a), 'B': mk(call_b)}, [['A', None], ['B', None]], lambda: None)
+    res = r.run()
+    ref = (res.get('A'), res.get('B'))
+    ctx.count('interleaved_evaluations')
+    na, nb = r.counts['A'], r.counts['B']
+    for k in spread(na, grid[0], rnd):
+        for j in spread(nb, grid[1], rnd):
+            r = sched.Run({'A': mk(call_a), 'B': mk(call_b)}, [['A', k], ['B', j], ['A', None], ['B', None]], lambda: None)
+            res = r.run()
+            ctx.count('interleaved_evaluations')
+            got = (res.get('A'), res.get('B'))
+            if got != ref:
+                wa, wb = r.stopped_at.get('A'), r.stopped_at.get('B')
+                ctx.violation(overlap.KEY, case, dict(detail, alone=list(ref), overlapping=list(got),
+                                                      schedule='A to boundary %d, B to boundary %d, A to its end, B to its end' % (k, j),
+                                                      a_preempted_at=list(wa) if wa else None, b_preempted_at=list(wb) if wb else None))
+                return False
+    return True
+
+
 def check_overlap(ctx, case):
     """Two requests enforce two policies of one rule set (shared alias targets) at the same time with different roles: each
     is decided as its definition says, and nested checks of each request are told that request's policy name."""
@@ -289,11 +336,24 @@ def check_overlap(ctx, case):
     refb = ev(rules[nb], rules, case['default'], rb, dict(stats)) if nb in rules else ev(('ref', nb), rules, case['default'], rb, dict(stats))
     want = [['returned', refa], ['returned', refb]]
     ctx.case(['overlap', texts, case['a'], case['b']], True, 'overlap')
+    shared = case.get('shared')
+    if shared:
+        # targeted cases: one name referenced at least twice under one and/or
+        ctx.count('overlap_repeated_reference_cases')
+        xa = ev(('ref', shared), rules, case['default'], ra, dict(stats))
+        xb = ev(('ref', shared), rules, case['default'], rb, dict(stats))
+        if xa != xb:
+            ctx.count('overlap_pairs_where_the_repeated_reference_decides_differently')
+        if na == nb:
+            ctx.count('overlap_pairs_on_the_same_policy')
     del WRONG[:]
     detail = {'rules': texts, 'default': case['default'], 'default_mode': case['default_mode'], 'request_a': case['a'], 'request_b': case['b'],
               'expected': want}
-    ok = overlap.enforce_pair(ctx, enf, (na, {}, {'roles': list(ra), 'pv_expect': na}, {}), enf, (nb, {}, {'roles': list(rb), 'pv_expect': nb}, {}),
-                              case, detail, ctx.sub_rnd('Ob', case['rseed']))
+    call_a = (na, {}, {'roles': list(ra), 'pv_expect': na}, {})
+    call_b = (nb, {}, {'roles': list(rb), 'pv_expect': nb}, {})
+    ok = overlap.enforce_pair(ctx, enf, call_a, enf, call_b, case, detail, ctx.sub_rnd('Ob', case['rseed']), limit=case.get('limit', 100))
+    if ok and not WRONG and case.get('grid'):
+        ok = interleave(ctx, enf, call_a, call_b, case, detail, ctx.sub_rnd('Oi', case['rseed']), case['grid'])
     if WRONG:
         ctx.violation('nested-check-told-wrong-policy-name', case, dict(detail, enforced_vs_told=WRONG[:3]))
         del WRONG[:]
@@ -301,6 +361,94 @@ def check_overlap(ctx, case):
         got = [overlap.outcome(lambda: enf.enforce(na, {}, {'roles': list(ra)})), overlap.outcome(lambda: enf.enforce(nb, {}, {'roles': list(rb)}))]
         if got != want:
             ctx.violation('alias-not-transparent', case, dict(detail, observed=got))
+
+
+REPEAT_LEAVES = ['role:a', 'role:b', 'role:c', 'role:d', 'pvrec:c', 'pvrec:d', 'pvrec3:d', 'pvrec4:b', '@', '!']
+
+
+def gen_repeated_policy(r, rules, prefix, shared):
+    """One policy in which rule:<shared> occurs at least twice under one and/or; returns its name."""
+    def L():
+        return ('text', r.choice(REPEAT_LEAVES))
+
+    def X():
+        return r.choice([('ref', shared), ('ref', shared), ('ref', shared), ('not', ('ref', shared))])
+
+    def op():
+        return r.choice(['and', 'or'])
+
+    def mix(*xs):
+        xs = list(xs)
+        r.shuffle(xs)
+        return xs
+    form = r.choice(['diamond', 'diamond', 'nested', 'nested', 'groups', 'flat', 'alias-diamond'])
+    if form == 'diamond':
+        rules[prefix + 'l'] = (op(), mix(X(), L()))
+        rules[prefix + 'r'] = (op(), mix(X(), L()))
+        mid = [L()] if r.random() < 0.3 else []
+        rules[prefix] = (op(), [('ref', prefix + 'l')] + mid + [('ref', prefix + 'r')])
+    elif form == 'nested':
+        o = op()
+        inner = ({'and': 'or', 'or': 'and'}[o] if r.random() < 0.8 else o, mix(L(), X()))
+        rules[prefix] = (o, [X(), inner] if r.random() < 0.7 else [inner, X()])
+    elif form == 'groups':
+        rules[prefix] = (op(), [(op(), mix(X(), L())), (op(), mix(L(), X()))])
+    elif form == 'flat':
+        rules[prefix] = (op(), [X(), L(), X()] + ([L()] if r.random() < 0.3 else []))
+    else:
+        rules[prefix + 'l'] = r.choice([('ref', shared), ('not', ('ref', shared))])
+        rules[prefix + 'r'] = r.choice([('ref', shared), ('or', [('ref', shared), L()]), ('and', [L(), ('ref', shared)])])
+        rules[prefix] = (op(), mix(('ref', prefix + 'l'), ('ref', prefix + 'r'), L()))
+    return prefix
+
+
+def gen_repeated(r):
+    """Overlap cases aimed at state kept per reference name: a rule set in which one name (defined, an alias, or undefined
+    and falling back to the default rule) is referenced at least twice under one and/or, enforced by two requests whose role
+    sets make that name decide differently (preferably with the first request's decision depending on it)."""
+    default_mode = r.choice(['none', 'option-default', 'ctor-name', 'ctor-object'])
+    undefined = r.random() < 0.15
+    if undefined and default_mode == 'none':
+        default_mode = r.choice(['option-default', 'ctor-name', 'ctor-object'])
+    default = {'none': None, 'option-default': 'default', 'ctor-name': 'fallback', 'ctor-object': None}[default_mode]
+    rules = {}
+    role_leaves = ['role:a', 'role:b', 'role:c', 'role:d', 'pvrec:c', 'pvrec4:b']
+    if default:
+        rules[default] = gen_body(r, 1, role_leaves) if undefined else gen_body(r, 1, ['role:a', 'role:b', '@', '!', 'pvrec:c'])
+    shared = 'x'
+    if not undefined:
+        form = r.choice(['leaf', 'leaf', 'body', 'alias', 'not'])
+        if form == 'leaf':
+            rules['x'] = ('text', r.choice(role_leaves))
+        elif form == 'body':
+            rules['x'] = gen_body(r, 2, role_leaves)
+        elif form == 'not':
+            rules['x'] = ('not', ('text', r.choice(role_leaves)))
+        else:
+            rules['x0'] = ('text', r.choice(role_leaves))
+            rules['x'] = r.choice([('ref', 'x0'), ('not', ('ref', 'x0')), ('or', [('ref', 'x0'), ('text', r.choice(role_leaves))])])
+    pa = gen_repeated_policy(r, rules, 'p', shared)
+    pb = pa if r.random() < 0.35 else gen_repeated_policy(r, rules, 'q', shared)
+    stats = {'object_default': default_mode == 'ctor-object'}
+
+    def val(ast, rs, roles):
+        return ev(ast, rs, default, roles, dict(stats))
+    always = dict(rules, **{shared: ('text', '@')})
+    never = dict(rules, **{shared: ('text', '!')})
+    best = None
+    for attempt in range(40):
+        ra, rb = r.choice(SUBSETS), r.choice(SUBSETS)
+        if best is None:
+            best = (ra, rb)
+            if r.random() < 0.15:
+                break                                   # some pairs with unconstrained role sets
+        if val(('ref', shared), rules, ra) == val(('ref', shared), rules, rb):
+            continue
+        best = (ra, rb)
+        if val(rules[pa], always, ra) != val(rules[pa], never, ra):
+            break                                       # A's decision depends on what the repeated reference decides
+    return dict(rules=rules, default=default, default_mode=default_mode, shape='repeated-reference', shared=shared,
+                a=[pa, best[0]], b=[pb, best[1]])
 
 
 def check_tool(ctx, case):
@@ -407,7 +555,114 @@ def check_redefinition(ctx, case):
                        'expected': want, 'observed': got})
 
 
+LATE_ROUTES_MEMORY = ['merge', 'update', 'setitem']
+LATE_ROUTES_FILE = ['registered-before-first-load', 'registered-late', 'registered-late', 'policy-dir-file', 'policy-dir-file', 'file-rewritten']
+
+
+def gen_late_default(r, case):
+    """From a generated rule set: the same rules WITHOUT the default rule (the enforcer still knows the default rule's name),
+    a few rules with undefined references (plain, under not, inside a random body), and the default rule to be defined later."""
+    mode = case['default_mode']
+    if mode == 'ctor-object':
+        return None                                      # a check object needs no definition: nothing to add later
+    dname = 'fallback' if mode == 'ctor-name' else 'default'
+    rules = {k: v for k, v in case['rules'].items() if k != dname}
+    body = case['rules'].get(dname) or gen_body(r, 1, ['role:a', 'role:b', 'role:c', '@', '!', 'pvrec:c'])
+    if r.random() < 0.5:
+        body = gen_body(r, 1, ['role:a', 'role:b', 'role:c', 'role:d', 'pvrec:c', '@'])
+    lower = ['rule:' + n for n in sorted(rules)]
+    rules['u0'] = ('ref', 'pv-undefined')
+    rules['u1'] = ('not', ('ref', r.choice(['pv-undefined', 'pv-undefined-2'])))
+    rules['u2'] = gen_body(r, 2, BASE_LEAVES + lower + ['rule:pv-undefined'] * 4 + ['rule:u0', 'rule:u1'])
+    backing = r.choice(['memory', 'file'])
+    return dict(rules=rules, default=dname, default_mode='ctor-name' if mode == 'ctor-name' else 'option-default',
+                shape=case['shape'], late_default=True, add={dname: body}, backing=backing,
+                how=r.choice(LATE_ROUTES_MEMORY if backing == 'memory' else LATE_ROUTES_FILE), fmt=r.choice(['json', 'yaml']))
+
+
+def check_late_default(ctx, case):
+    """The rule set of a living enforcer lacks the default rule (only its name is configured): undefined references and
+    unknown policy names deny.  Then the default rule gets defined - merged in, assigned, registered as a default in code
+    (installed by the enforcer after the file rules), dropped into a policy directory, or added to the policy file - and
+    everything is decided again: the default rule is usable now, so undefined references / unknown names decide as it does."""
+    from oslo_policy import policy, _parser
+    from pv.gen import files
+    rules = {k: fromjson(v) for k, v in case['rules'].items()}
+    add = {k: fromjson(v) for k, v in case['add'].items()}
+    dname = case['default']
+    texts = {k: text_of(v) for k, v in rules.items()}
+    addtexts = {k: text_of(v) for k, v in add.items()}
+    how = case['how']
+    tree = None
+    ctx.case(['late-default', texts, addtexts, how, case.get('fmt')], True, 'late-default')
+    ctx.observe('late_default_routes', '%s/%s' % (how, case['default_mode']))
+    try:
+        if case['backing'] == 'memory':
+            enf = build(policy, case, texts)
+        else:
+            ext = case['fmt'].split('-')[0]
+            tree = files.Tree(dirs=('d1',), main='policy.' + ext)
+            tree.write('policy.' + ext, texts, case['fmt'])
+            kw = {'default_rule': dname} if case['default_mode'] == 'ctor-name' else {}
+            enf = policy.Enforcer(tree.conf(), **kw)
+            ctx.count('late_default_file_backed_cases')
+
+        first = ctx.sub_rnd('late0', repr(sorted(texts.items()))).sample(SUBSETS, 4)
+
+        def table(cur, phase):
+            for nm in list(cur) + ['pv-unknown-policy']:
+                for roles in (SUBSETS if phase else first):
+                    stats = {}
+                    want = ev(cur[nm] if nm in cur else ('ref', nm), cur, dname, roles, stats)
+                    try:
+                        got = bool(enf.enforce(nm, {}, {'roles': list(roles)}))
+                    except Exception as e:
+                        got = 'EXC:' + type(e).__name__
+                    ctx.count('late_default_decisions')
+                    if phase and stats.get('undefined'):
+                        ctx.count('late_default_undefined_reference_decisions')
+                    if got != want:
+                        if isinstance(got, str):
+                            key = 'reference-evaluation-raises'
+                        elif nm not in cur:
+                            key = 'unknown-policy-not-like-undefined-reference'
+                        elif stats.get('undefined'):
+                            key = ('undefined-reference-ignores-default-rule-defined-later' if phase else
+                                   'undefined-reference-not-like-unknown-policy')
+                        else:
+                            key = 'reference-follows-stale-definition' if phase else 'alias-not-transparent'
+                        ctx.violation(key, case, {'rules_at_first': texts, 'default_rule_name': dname, 'default_rule_defined_later': addtexts,
+                                                  'how': how, 'backing': case['backing'], 'phase': 'after' if phase else 'before',
+                                                  'enforced': nm, 'roles': roles, 'expected': want, 'observed': got})
+                        return False
+            return True
+        if how == 'registered-before-first-load':
+            enf.register_default(policy.RuleDefault(dname, addtexts[dname]))
+        elif not table(rules, 0):                         # default rule not defined: not usable
+            return
+        cur = dict(rules)
+        cur.update(add)
+        if how == 'merge':
+            enf.set_rules(policy.Rules.from_dict(addtexts), overwrite=False)
+        elif how == 'update':
+            enf.rules.update({k: _parser.parse_rule(v) for k, v in addtexts.items()})
+        elif how == 'setitem':
+            for k, v in addtexts.items():
+                enf.rules[k] = _parser.parse_rule(v)
+        elif how == 'registered-late':
+            enf.register_default(policy.RuleDefault(dname, addtexts[dname]))
+        elif how == 'policy-dir-file':
+            tree.write('d1/later.' + ext, addtexts, case['fmt'])
+        elif how == 'file-rewritten':
+            tree.write('policy.' + ext, dict(texts, **addtexts), case['fmt'])
+        table(cur, 1)
+    finally:
+        if tree:
+            tree.cleanup()
+
+
 def run(ctx):
+    ctx.reserve(0.8)          # the strata that come last (overlapping operations) keep a fifth of the wall budget
     install_kinds()
     try:
         n = N[ctx.tier] // ctx.nshards + 1
@@ -426,11 +681,17 @@ def run(ctx):
                                                  how=ctx.rnd.choice(['merge', 'update', 'setitem', 'overwrite', 'delete'])))
             if i % 4 == 1:
                 check_tool(ctx, case)
+            if i % LATE_EVERY[ctx.tier] == 2:
+                # the default rule is missing at first and gets defined later on the living enforcer
+                late = gen_late_default(ctx.sub_rnd('L', ctx.tier, ctx.shard, i), case)
+                if late:
+                    check_late_default(ctx, late)
             if i % 300 == 0:
                 ctx.sample({'rules': {k: text_of(v) for k, v in case['rules'].items()}, 'default': case['default'],
                             'shape': case['shape']})
         ctx.count('three_arg_calls', CALLS3[0])
         ctx.stratum('random', exhaustive=False)
+        ctx.release()
         # two overlapping requests, last (the line-level scheduler slows everything that runs after it is installed)
         from pv.mon import sched
         ctx.stratum('overlap', exhaustive=False)
@@ -442,7 +703,14 @@ def run(ctx):
                 case = gen_ruleset(r)
                 names = sorted(case['rules']) + ['pv-unknown-policy']
                 check_overlap(ctx, dict(case, overlap=True, a=[r.choice(names), r.choice(SUBSETS)], b=[r.choice(names), r.choice(SUBSETS)],
-                                        rseed='%s.%d.%d' % (ctx.tier, ctx.shard, i)))
+                                        rseed='%s.%d.%d' % (ctx.tier, ctx.shard, i), grid=OVERLAP_GRID[ctx.tier]))
+            # the same, aimed at state kept per reference name: one name referenced twice or more under one and/or, role
+            # sets that make it decide differently for the two requests, both requests in flight at once
+            for i in range(OVERLAPS_REPEATED[ctx.tier]):
+                if ctx.expired():
+                    break
+                r = ctx.sub_rnd('OR', ctx.tier, ctx.shard, i)
+                check_overlap(ctx, dict(gen_repeated(r), overlap=True, rseed='R.%s.%d.%d' % (ctx.tier, ctx.shard, i), limit=24, grid=[4, 5]))
         finally:
             sched.uninstall()
     finally:
@@ -456,6 +724,8 @@ def replay(ctx, case):
             return check_overlap(ctx, case)
         if case.get('redefinition'):
             return check_redefinition(ctx, case)
+        if case.get('late_default'):
+            return check_late_default(ctx, case)
         if case.get('tool'):
             return check_tool(ctx, case)
         check_case(ctx, case)
